@@ -122,6 +122,18 @@ def case_copy(ctx, kind, route, case_seed, report=True):
     except Exception as e:
         viol.append(("C06:route-raised", f"{label} raised {type(e).__name__}: {str(e)[:80]}"))
         return line, None, None, viol, tag
+    ownerless = any(not a[9] for a in snap0["atoms"]) or any(not b[7] for b in snap0["bonds"])
+    if route == "shallow" and ownerless:
+        # atoms without a live owner: which of the objects that share them they name as parent is not defined
+        # (a shallow copy shares the atoms by definition); everything else must be untouched
+        def mask(sn):
+            d = dict(sn)
+            d["atoms"] = [a[:9] for a in sn["atoms"]]
+            d["bonds"] = [b[:7] for b in sn["bonds"]]
+            return d
+        if mask(H.snapshot(src)) != mask(snap0):
+            viol.append(("C06:source-changed-by-derivation", f"{label} changed its (ownerless) source"))
+        return None, None, None, viol, tag
     if H.snapshot(src) != snap0 or (own0 is not None and H.snapshot(src._parent) != own0):
         d = H.snap_diff(snap0, H.snapshot(src))
         viol.append(("C06:source-changed-by-derivation", f"{label} changed its source in {d[:3]}"))
@@ -143,7 +155,7 @@ def case_copy(ctx, kind, route, case_seed, report=True):
         viol.append(("C06:copy-unusable", f"{label}: inspecting the result raised {type(e).__name__}: {str(e)[:80]}"))
         return line, None, None, viol, tag
     # ---- faithful
-    d = H.snap_diff(snap0, H.snapshot(res))
+    d = H.snap_diff(H.owned(snap0), H.snapshot(res))
     if d:
         viol.append((f"C06:copy-differs-from-source:{component(d[0])}", f"{label}: result differs from the source in {d[:4]}"))
     if shared:
@@ -238,9 +250,9 @@ def case_copyas(ctx, kind, target, mode, case_seed, keywords=None):
     # ---- faithful: what the classes have in common is that of the source, the overrides are what was passed
     if mode == "atoms":
         base = {"cls": target, "name": "unknown", "charge": 0, "mult": 1, "attrib": {}, "atoms": snaps0[0]["atoms"], "bonds": [], "arrays": []}
-        exp = H.expected_cast(base, "Promolecule", target, kw, shapes)
+        exp = H.expected_cast(H.owned(base), "Promolecule", target, kw, shapes)
     else:
-        exp = H.expected_cast(snaps0[0], kind, target, kwm, shapes)
+        exp = H.expected_cast(H.owned(snaps0[0]), kind, target, kwm, shapes)
     d = H.snap_diff(exp, rs)
     if d:
         viol.append((f"C06:copy-differs-from-source:{component(d[0])}", f"{label}: result is not the source with the overrides applied: {d[:4]}"))
@@ -255,7 +267,7 @@ def case_copyas(ctx, kind, target, mode, case_seed, keywords=None):
 # ----------------------------------------------------------------------------------------------------------
 def expected_concat(snaps):
     atoms, bonds, off = [], [], 0
-    for sn in snaps:
+    for sn in map(H.owned, snaps):
         atoms += list(sn["atoms"])
         bonds += [(b[0] + off, b[1] + off) + b[2:] for b in sn["bonds"]]
         off += len(sn["atoms"])
@@ -271,6 +283,7 @@ def expected_concat(snaps):
 
 
 def expected_join(s1, s2, i1, i2):
+    s1, s2 = H.owned(s1), H.owned(s2)
     n1 = len(s1["atoms"])
     keep1 = [i for i in range(n1) if i != i1]
     keep2 = [i for i in range(len(s2["atoms"])) if i != i2]
